@@ -37,8 +37,7 @@ def strategy(tier):
         pm = draw(st.sampled_from([8, 8, 8, 5, 5, 4])) if n <= 300 else 8
         c = dict(source_width=64, source_height=64, enc_mode=pm, qp=draw(st.sampled_from([20, 50, 58, 63])), recon_enabled=1, logical_processors=draw(st.sampled_from([2, 4])),
                  hierarchical_levels=draw(st.sampled_from([0, 2, 3, 4, 5])), intra_period_length=draw(st.sampled_from([-1, 31, 255, 2047, 2048, -2])))
-        if draw(st.integers(0, 2)) == 0:
-            c["enable_overlays"] = 1
+        # enable_overlays is not drawn: overlays have listed crash / stall findings (C11, C27) that would end every long stream early
         cnt = [draw(st.sampled_from([3, 5, 1])), draw(st.integers(0, 9999)), 50, 1, 0]
         return gens.case_from(c, n, 0, cnt)
     return s()
@@ -79,7 +78,12 @@ def run_case(case, tier):
     try:
         inc = enc_failure_info(r)
         if inc:
-            return dict(violations=[], nontrivial=False, dkey=None, classes=["encode_failed"], sample=summarize_cfg(case), inconclusive=inc)
+            # a long stream that crashes or stalls the encoder is itself a violation of "encoded exactly as well as short ones"
+            kind = "encode-hang" if r.hang else "encode-crash"
+            if r.hang and r.hang.get("hang") != "deadlock":
+                return dict(violations=[], nontrivial=False, dkey=None, classes=["encode_slow"], sample=summarize_cfg(case), inconclusive=inc)
+            return dict(violations=[dict(key="C22|%s|N%s" % (kind, ">2048" if case["frames"] > 2048 else ">128"), what="N=%d: %s" % (case["frames"], inc[:300]))], nontrivial=True,
+                        dkey=svt.case_hash(case), classes=["encode_failed"], sample=summarize_cfg(case))
         if not r.accepted():
             return dict(violations=[], nontrivial=False, dkey=None, classes=["rejected_config"], sample=None)
         viol = c03.check_ledger(r, case, decode=False)
